@@ -365,5 +365,34 @@ theorem main_dispatch_file {ζ τ : Type} (E : MainEnv ζ τ) (ap : Bytes → By
     · exact this _
     · exact this _
 
+/-- binary output is not sent to a terminal: encrypting without `-a` and without `-o`, with standard output a terminal, ends
+    the process (site 13) before any mode function is called — whatever they would do -/
+theorem main_binaryToTerminal {ζ τ : Type} (E : MainEnv ζ τ) (ap : Bytes → Bytes) (a : Args) (hfc : flagCheck a = none)
+    (hArg : ∀ t, E.Arg 0 t = .ok ([], t)) (hSet : ∀ b t, E.SetStdin b t = .ok t) (hFd : ∀ z t, E.Fd z t = .ok (0, t))
+    (hIsT : ∀ n t, E.IsT n t = .ok (true, t)) (hAP : E.AP = main_pureAP ap)
+    (hout : a.output = []) (hd : a.decrypt = false) (harm : a.armor = false) (t0 : τ) :
+    E.run a.output a.decrypt a.encrypt a.passphrase a.armor a.recipients a.recipientsFiles (a.identities.map main_toFlag) t0 =
+      .error (.panic 1013) := by
+  rw [main_prefix E a hfc t0]
+  simp only [mainRest, hAP, main_loop1_eq, main_loop2_eq, bind, Except.bind, pure, Except.pure]
+  simp [mainIn, mainOut, hArg, hSet, hFd, hIsT, hout, hd, harm, bind, Except.bind, pure, Except.pure, throw, throwThe,
+    MonadExceptOf.throw]
+
+/-- an input file that cannot be opened ends the process (site 10) before the output is even looked at: `newLazyOpener` and
+    the terminal tests are not reached (here they fault when called) -/
+theorem main_openInput {ζ τ : Type} (E : MainEnv ζ τ) (ap : Bytes → Bytes) (a : Args) (hfc : flagCheck a = none)
+    (inputName : Bytes) (hname : inputName ≠ [] ∧ inputName ≠ [45]) (hArg : ∀ t, E.Arg 0 t = .ok (inputName, t))
+    (f : ζ) (e : Go.Err) (hOpen : ∀ n t, E.Open n t = .ok (f, some e, t)) (hAP : E.AP = main_pureAP ap)
+    (hNL : E.NL = fun _ _ => .error (.panic 77)) (hFd : E.Fd = fun _ _ => .error (.panic 78)) (t0 : τ) :
+    E.run a.output a.decrypt a.encrypt a.passphrase a.armor a.recipients a.recipientsFiles (a.identities.map main_toFlag) t0 =
+      .error (.panic 1010) := by
+  rw [main_prefix E a hfc t0]
+  have h1 : ((inputName != ([] : List UInt8)) && (inputName != ([45] : List UInt8))) = true := by
+    rw [main_isFile_eq]; simpa using hname
+  have _ := hNL
+  have _ := hFd
+  simp only [mainRest, hAP, main_loop1_eq, main_loop2_eq, bind, Except.bind, pure, Except.pure]
+  simp [mainIn, hArg, h1, hOpen, hAP, main_pureAP, bind, Except.bind, pure, Except.pure, throw, throwThe, MonadExceptOf.throw]
+
 end GoTie
 end AgeModel
